@@ -35,7 +35,7 @@ IsEv(e) == l <= Len(Trace) /\ Line.ev = e /\ l' = l + 1
 TraceInit ==
    /\ l = 1 /\ caseIdx = -1 /\ cScript = <<>> /\ oRaw = <<>> /\ oErrs = <<>> /\ oLogs = <<>> /\ oInvoked = 0
    /\ oScript = <<>> /\ oReal = <<>> /\ oEnd = <<>> /\ diverged = FALSE
-   /\ cfg = [strict |-> FALSE, reqClass |-> "valid_post", errMode |-> "default", gate |-> "validator", opt |-> "none", primer |-> "none", auth |-> "callback"]
+   /\ cfg = [strict |-> FALSE, reqClass |-> "valid_post", errMode |-> "default", gate |-> "validator", opt |-> "none", primer |-> "none", auth |-> "callback", prior |-> "none"]
    /\ phase = "done" /\ w = WInit /\ hdr = "none" /\ script = <<>> /\ cOut = <<>>
    /\ invoked = 0 /\ errs = <<>> /\ logs = <<>>
 
